@@ -166,6 +166,6 @@ impl OnEvictCallback for LogCb {
         } else {
             (u64::MAX, 0)
         };
-        track::CB_LOG.with(|c| c.borrow_mut().push((k, v, kt, vt)));
+        track::log_cb((k, v, kt, vt));
     }
 }
